@@ -284,7 +284,11 @@ macro_rules! read_payload {
 // ---------------------------------------------------------------------------------------------
 // v5 server services
 
-async fn hs5(ctx: Rc<Ctx>, mut h: v5::Handshake) -> Result<v5::HandshakeAck<()>, TestErr> {
+async fn hs5(ctx: Rc<Ctx>, h: v5::Handshake) -> Result<v5::HandshakeAck<()>, TestErr> {
+    hs5g(ctx, h, ()).await
+}
+
+async fn hs5g<St>(ctx: Rc<Ctx>, mut h: v5::Handshake, st: St) -> Result<v5::HandshakeAck<St>, TestErr> {
     let hid = ctx.new_h();
     {
         let p = h.packet();
@@ -308,7 +312,7 @@ async fn hs5(ctx: Rc<Ctx>, mut h: v5::Handshake) -> Result<v5::HandshakeAck<()>,
         "err" => Err(TestErr::Fail),
         "refuse" => Ok(h.failed(v5::codec::ConnectAckReason::NotAuthorized)),
         _ => {
-            let mut ack = h.ack(());
+            let mut ack = h.ack(st);
             let ms = ctx.cfg_i("ack_max_send", -1);
             if ms >= 0 {
                 ack = ack.max_send(Some(ms as u16));
@@ -354,6 +358,15 @@ async fn hs5(ctx: Rc<Ctx>, mut h: v5::Handshake) -> Result<v5::HandshakeAck<()>,
 }
 
 async fn pub5(ctx: Rc<Ctx>, p: v5::Publish) -> Result<v5::PublishAck, TestErr> {
+    pub5r(ctx, 0, -1, p).await
+}
+
+/// publish handler of connection `conn` (0 = the connection under observation) reached through
+/// router resource `res` (-1 = no router, 0 = default service, 1.. = resources)
+async fn pub5r(ctx: Rc<Ctx>, conn: i64, res: i64, p: v5::Publish) -> Result<v5::PublishAck, TestErr> {
+    if conn != 0 {
+        return Ok(p.ack());
+    }
     let h = ctx.new_h();
     ctx.emit(
         Ev::new("h_start")
@@ -362,7 +375,7 @@ async fn pub5(ctx: Rc<Ctx>, p: v5::Publish) -> Result<v5::PublishAck, TestErr> {
             .id(p.id().map_or(0, |v| i64::from(v.get())))
             .q(qos_i(p.qos()))
             .n(p.payload_size() as i64)
-            .r(i64::from(p.dup()) * 2 + i64::from(p.retain()))
+            .r(i64::from(p.dup()) * 2 + i64::from(p.retain()) + if res >= 0 { 16 * (res + 1) } else { 0 })
             .x(p.publish_topic().to_string()),
     );
     let g = Guard { ctx: ctx.clone(), h, done: Cell::new(false) };
@@ -1140,7 +1153,8 @@ fn tok_ev(e: &'static str, t: &tok::Tok) -> Ev {
             .q(i64::from(t.props.rm))
             .r(i64::from(t.props.mps))
             .s(i64::from(t.props.tam))
-            .id(i64::from(t.level)),
+            .id(i64::from(t.level))
+            .x(t.props.sei.to_string()),
         // CONNACK: r = reason, q = receive max, n = server keep alive (-1 none), s = topic alias
         // max, id = max qos (-1 none), x = max packet size
         "CONNACK" => Ev::new(e)
@@ -1151,6 +1165,10 @@ fn tok_ev(e: &'static str, t: &tok::Tok) -> Ev {
             .s(i64::from(t.props.tam))
             .id(i64::from(t.props.mq))
             .x(t.props.mps.to_string()),
+        "DISCONNECT" | "AUTH" => Ev::new(e)
+            .k(t.k)
+            .r(i64::from(t.reason))
+            .n(if t.props.len == 0 { -1 } else { t.props.sei }),
         _ => Ev::new(e)
             .k(t.k)
             .id(i64::from(t.id))
@@ -1181,10 +1199,80 @@ pub async fn run_conn(ctx: Rc<Ctx>, cmds: Vec<Value>) {
     };
     let mut tok_in = Tokenizer::new(ver);
     let mut peer_keep: Option<IoTest> = None;
+    #[allow(unused_assignments, unused_mut)]
+    let mut warm_keep: Option<IoTest> = None;
 
     // start the endpoint
     let c = ctx.clone();
     match (role.as_str(), ver) {
+        ("server", 5) if ctx.cfg_i("router", 0) != 0 || ctx.cfg.get("warm").is_some() => {
+            // session state = connection number (client id "w" = the warm-up connection)
+            let (c1, c2, c3) = (ctx.clone(), ctx.clone(), ctx.clone());
+            let mkres = |res: i64| {
+                let c = ctx.clone();
+                ntex_service::fn_factory_with_config(move |ses: v5::Session<i64>| {
+                    let c = c.clone();
+                    let conn = *ses;
+                    async move {
+                        Ok::<_, TestErr>(fn_service(move |p: v5::Publish| pub5r(c.clone(), conn, res, p)))
+                    }
+                })
+            };
+            let hs = move |h: v5::Handshake| {
+                let c = c1.clone();
+                async move {
+                    if h.packet().client_id.as_str() == "w" {
+                        Ok::<_, TestErr>(h.ack(1i64))
+                    } else {
+                        hs5g(c, h, 0i64).await
+                    }
+                }
+            };
+            let warm: Vec<Value> = ctx.cfg.get("warm").and_then(Value::as_array).cloned().unwrap_or_default();
+            let io = IoBoxed::from(Io::new(ep_io, cfg.clone()));
+            macro_rules! start {
+                ($publish:expr) => {{
+                    let server = v5::MqttServer::new(hs)
+                        .protocol(move |m: v5::ProtocolMessage| proto5(c2.clone(), m))
+                        .control(move |m: Control<TestErr>| ctl5(c3.clone(), m))
+                        .publish($publish);
+                    let svc = ServiceFactory::<IoBoxed, SharedCfg>::create(&server, cfg.clone()).await;
+                    let svc = Pipeline::new(svc.expect("server create"));
+                    if !warm.is_empty() {
+                        // a concurrent connection through the same server instance
+                        let (wpeer, wep) = IoTest::create();
+                        wpeer.remote_buffer_cap(BIG);
+                        wep.remote_buffer_cap(BIG);
+                        let wio = IoBoxed::from(Io::new(wep, cfg.clone()));
+                        let svc2 = svc.clone();
+                        ntex_rt::spawn(async move {
+                            let _ = svc2.call(wio).await;
+                        });
+                        wpeer.write(tok::build(5, &json!({"t": "connect", "cid": "w", "ka": 0})));
+                        idle().await;
+                        for p in &warm {
+                            wpeer.write(tok::build(5, p));
+                            idle().await;
+                        }
+                        let _ = wpeer.read_any();
+                        warm_keep = Some(wpeer);
+                    }
+                    ntex_rt::spawn(async move {
+                        let r = svc.call(io).await;
+                        c.conn_done.set(true);
+                        c.emit(Ev::new("conn_done").k(match &r {
+                            Ok(()) => "ok".to_string(),
+                            Err(e) => format!("err:{}", short(&format!("{e:?}"))),
+                        }));
+                    });
+                }};
+            }
+            if ctx.cfg_i("router", 0) != 0 {
+                start!(v5::Router::new(mkres(0)).resource("a", mkres(1)).resource("b", mkres(2)))
+            } else {
+                start!(mkres(-1))
+            }
+        }
         ("server", 5) => {
             let (c1, c2, c3, c4) = (ctx.clone(), ctx.clone(), ctx.clone(), ctx.clone());
             let server = v5::MqttServer::new(move |h: v5::Handshake| hs5(c1.clone(), h))
@@ -1283,12 +1371,21 @@ pub async fn run_conn(ctx: Rc<Ctx>, cmds: Vec<Value>) {
                         *c.sink.borrow_mut() = SinkH::V5(client.sink());
                         c.emit(Ev::new("connected"));
                         let (c2, c3) = (c.clone(), c.clone());
-                        let r = client
-                            .start_with_control(
-                                fn_service(move |m: v5::client::ProtocolMessage| cproto5(c2.clone(), m)),
-                                fn_service(move |m: Control<TestErr>| ctl5(c3.clone(), m)),
-                            )
-                            .await;
+                        let r = if c.cfg_i("router", 0) != 0 {
+                            let (r1, r2) = (c.clone(), c.clone());
+                            client
+                                .resource("a", fn_service(move |p: v5::Publish| pub5r(r1.clone(), 0, 1, p)))
+                                .resource("b", fn_service(move |p: v5::Publish| pub5r(r2.clone(), 0, 2, p)))
+                                .start(fn_service(move |m: v5::client::ProtocolMessage| cproto5(c2.clone(), m)))
+                                .await
+                        } else {
+                            client
+                                .start_with_control(
+                                    fn_service(move |m: v5::client::ProtocolMessage| cproto5(c2.clone(), m)),
+                                    fn_service(move |m: Control<TestErr>| ctl5(c3.clone(), m)),
+                                )
+                                .await
+                        };
                         c.conn_done.set(true);
                         c.emit(Ev::new("conn_done").k(match &r {
                             Ok(()) => "ok".to_string(),
@@ -1681,6 +1778,20 @@ pub async fn run_conn(ctx: Rc<Ctx>, cmds: Vec<Value>) {
                 let open = ctx.gates.borrow().len();
                 ctx.emit(Ev::new("final").s(open as i64).n(unread as i64).r(rounds));
             }
+            "mark" => {
+                // scenario marker for the monitors (what the generator injected)
+                let e: &'static str = match c.get("e").and_then(Value::as_str).unwrap_or("") {
+                    "expect_disc" => "expect_disc",
+                    "app_disc" => "app_disc",
+                    "cause" => "cause",
+                    _ => "mark",
+                };
+                ctx.emit(
+                    Ev::new(e)
+                        .n(c.get("n").and_then(Value::as_i64).unwrap_or(0))
+                        .k(c.get("k").and_then(Value::as_str).unwrap_or("")),
+                );
+            }
             "idle" | "" => {}
             other => panic!("unknown command {other}"),
         }
@@ -1751,6 +1862,7 @@ pub async fn run_conn(ctx: Rc<Ctx>, cmds: Vec<Value>) {
     idle().await;
     peer.drain(&ctx);
     ctx.emit(Ev::new("end").k(if ctx.conn_done.get() { "done" } else { "alive" }));
+    drop(warm_keep);
 }
 
 fn ver_of(p: &Value, d: u8) -> u8 {
